@@ -53,7 +53,7 @@ func report(t vcore.Failer, c sessmodel.Case, r sessmodel.Result) {
 	}
 	key := r.V.Key
 	c.Ops = vcore.MinimizeSlice(c.Ops, func(ops []sessmodel.Op) bool {
-		x := sessmodel.Run(sessmodel.Case{Ops: ops}, or)
+		x := sessmodel.Run(sessmodel.Case{Ops: ops, Refuse: c.Refuse}, or)
 		return x.V != nil && x.V.Key == key
 	}, 300)
 	if x := sessmodel.Run(c, or); x.V != nil {
@@ -83,7 +83,7 @@ func TestC04(t *testing.T) {
 		// one history in four lets the peers choose equal CP SEIDs, so that a SEID-0 answer
 		// can only be attributed by peer address
 		gc.SharedCP = rapid.IntRange(0, 3).Draw(rt, "sharedcp") == 0
-		c := sessmodel.Case{Ops: sessmodel.Gen(rt, gc)}
+		c := sessmodel.Case{Ops: sessmodel.Gen(rt, gc), Refuse: sessmodel.GenRefuse(rt)}
 		r := sessmodel.Run(c, or)
 		account(c, r)
 		if gc.SharedCP {
